@@ -275,20 +275,10 @@ pub fn global_parse_int(
         None => interp.intern(""),
     };
     let string = string.as_str().to_string();
-    let radix = args.get(1).map(|v| v.to_number() as i32).unwrap_or(10);
+    let radix = crate::value::to_int32(args.get(1).map(|v| v.to_number()).unwrap_or(0.0));
 
     // Trim whitespace
     let s = string.trim();
-
-    if s.is_empty() {
-        return Ok(Guarded::unguarded(JsValue::Number(f64::NAN)));
-    }
-
-    // Handle radix
-    let radix = if radix == 0 { 10 } else { radix };
-    if !(2..=36).contains(&radix) {
-        return Ok(Guarded::unguarded(JsValue::Number(f64::NAN)));
-    }
 
     // Handle sign
     let (negative, s) = if let Some(rest) = s.strip_prefix('-') {
@@ -299,34 +289,47 @@ pub fn global_parse_int(
         (false, s)
     };
 
-    // Handle hex prefix for radix 16
-    let s = if radix == 16 {
-        s.strip_prefix("0x")
-            .or_else(|| s.strip_prefix("0X"))
-            .unwrap_or(s)
+    // Radix 0 / undefined means 10, or 16 when the digits start with 0x
+    let (radix, strip_prefix) = if radix == 0 {
+        (10, true)
     } else {
-        s
+        (radix, radix == 16)
     };
+    if !(2..=36).contains(&radix) {
+        return Ok(Guarded::unguarded(JsValue::Number(f64::NAN)));
+    }
+    let (radix, s) =
+        if strip_prefix && let Some(rest) = s.strip_prefix("0x").or_else(|| s.strip_prefix("0X")) {
+            (16, rest)
+        } else {
+            (radix, s)
+        };
 
-    // Parse digits until invalid character
-    let mut result: i64 = 0;
+    // Parse digits until invalid character (accumulate as a double: any length is fine)
+    let mut result: f64 = 0.0;
     let mut found_digit = false;
 
     for c in s.chars() {
         let digit = match c.to_digit(radix as u32) {
-            Some(d) => d as i64,
+            Some(d) => d as f64,
             None => break,
         };
         found_digit = true;
-        result = result * (radix as i64) + digit;
+        result = result * (radix as f64) + digit;
     }
 
     if !found_digit {
         return Ok(Guarded::unguarded(JsValue::Number(f64::NAN)));
     }
 
+    // Decimal digits beyond what a double holds exactly: round the whole digit string once
+    if radix == 10 && result >= 9007199254740992.0 {
+        let digits: String = s.chars().take_while(|c| c.is_ascii_digit()).collect();
+        result = digits.parse::<f64>().unwrap_or(result);
+    }
+
     let result = if negative { -result } else { result };
-    Ok(Guarded::unguarded(JsValue::Number(result as f64)))
+    Ok(Guarded::unguarded(JsValue::Number(result)))
 }
 
 pub fn global_parse_float(
